@@ -284,8 +284,8 @@ class Chaos:
                          "ram": fstr(ram), "pool": pid})
             if r.random() < 0.1:
                 cmds[-1]["force"] = True
-            if r.random() < 0.1:
-                cmds[-1]["resume"] = True
+            if r.random() < 0.1 or (r.random() < 0.7 and any(c.ops and c.ops[0].key[0] == bi for p in pools for c in p.suspended)):
+                cmds[-1]["resume"] = True       # work of a suspended container goes on: flagged as a resume
         if k["fault"] and not self.fault_done and t >= k["fault_tick"]:
             f = self.make_fault(k["fault"], t, cmds, av)
             if f is not None:
@@ -655,6 +655,11 @@ def invariants(ex, acct, tick):
             raise Violation("C04.pool_over", {"pool": p.pool_id, "use": use, "capacity": p.max_ram_pool}, tick)
         live += len(held)
         susd += len(p.suspended_containers)
+    ids = [c.container_id for p in ex.pools for c in list(p.active_containers) + list(p.suspending_containers)]
+    if len(set(ids)) != len(ids):
+        # commands and results name containers by id: two live containers must never answer to the same one
+        dup = sorted(i for i in set(ids) if ids.count(i) > 1)
+        raise Violation("C09.live_id_shared", {"ids": dup[:5]}, tick)
     if acct["accepted"] != acct["ok"] + acct["fail"] + susd + live:
         raise Violation("C09.identity", dict(acct, suspended=susd, live=live), tick)
 
@@ -798,9 +803,17 @@ def run(scn, rng=None):
                 rexc = None
                 try:
                     cpu_arg = int(cpu) if cpu.denominator == 1 else float(cpu)
+                    kw = {}
+                    if cmd.get("resume"):
+                        # a resume names the suspended container whose work it continues (latest one of the pipeline)
+                        old = [c for pl_ in ex.pools for c in pl_.suspended_containers
+                               if c.assignment.pipeline_id == b.p.pipeline_id]
+                        if old:
+                            kw["container_id"] = old[-1].container_id
+                            out["faults"]["resume_names_container"] = out["faults"].get("resume_names_container", 0) + 1
                     a = Assignment(ops=[b.rops[i] for i in idxs], cpu=cpu_arg, ram=float(ram),
                                    priority=Priority[b.prio], pool_id=cmd["pool"], pipeline_id=b.p.pipeline_id,
-                                   is_resume=bool(cmd.get("resume")), force_run=bool(cmd.get("force")))
+                                   is_resume=bool(cmd.get("resume")), force_run=bool(cmd.get("force")), **kw)
                 except Exception as e:  # noqa: BLE001 - any refusal counts as a rejection
                     rexc = e
                 if (mrej is None) != (rexc is None):
